@@ -11,20 +11,23 @@ wt=f'/tmp/seedwork/wt{sfx}-{pid}'; out=f'/tmp/seedwork/out{sfx}-{pid}/{v}'
 env=dict(os.environ, RUSTUP_TOOLCHAIN='1.88.0', CARGO_NET_OFFLINE='true')
 def sh(cmd): return subprocess.run(cmd, shell=True, cwd=wt, env=env, capture_output=True, text=True)
 readme=open(f'{out}/README.md').read()
-m=re.search(r'--test\s+([A-Za-z0-9_]+)', readme)
-assert m, 'no --test name in README'
-name=m.group(1)
-feat='--features verif' if 'features verif' in readme else ''
+names=[n for n in re.findall(r'--test\s+([A-Za-z0-9_]+)', readme) if n not in ('cluster_test','perf_test')]
+assert names, 'no --test name in README'
+name=names[0]
+m2=re.search(r'cargo test[^\n]*?-p\s+(\S+)[^\n]*--test\s+'+re.escape(name), readme)
+pkg=m2.group(1) if m2 else 'chitchat'
+m3=re.search(r'--features\s+(\S+)', readme)
+feat=('--features '+m3.group(1).strip('`')) if m3 else ''
 assert sh('git status --porcelain').stdout.strip()=='' , 'worktree not clean'
-demo_dst=f'{wt}/chitchat/tests/{name}.rs'
+demo_dst=f'{wt}/{pkg}/tests/{name}.rs'
 ran=[]
 try:
     shutil.copy(f'{out}/demo.rs', demo_dst)
-    r0=sh(f'cargo test -p chitchat --offline {feat} --test {name}')
-    ran.append(f'unchanged: cargo test -p chitchat --offline {feat} --test {name} -> exit {r0.returncode}')
+    r0=sh(f'cargo test -p {pkg} --offline {feat} --test {name}')
+    ran.append(f'unchanged: cargo test -p {pkg} --offline {feat} --test {name} -> exit {r0.returncode}')
     assert r0.returncode==0, 'demo does not pass on unchanged code:\n'+r0.stdout[-1500:]
     assert sh(f'git apply {out}/patch.diff').returncode==0, 'patch does not apply'
-    r1=sh(f'cargo test -p chitchat --offline {feat} --test {name}')
+    r1=sh(f'cargo test -p {pkg} --offline {feat} --test {name}')
     ran.append(f'with change: same command -> exit {r1.returncode}')
     assert r1.returncode!=0, 'demo does not fail with the change'
     fail_line=[l for l in r1.stdout.splitlines() if 'panicked' in l or 'FAILED' in l][:2]
@@ -41,7 +44,7 @@ dst=f'/verif/seeded/{pid}-{v}' if R=='1' else f'/verif/seeded/{pid}-R{R}{v}'
 os.makedirs(dst, exist_ok=True)
 for f in ['patch.diff','demo.rs','README.md']: shutil.copy(f'{out}/{f}', f'{dst}/{f}')
 meta={'property':pid,'variant':v,'demo_test_name':name,'demo_needs_feature_verif':bool(feat),
-      'demo_placement':f'chitchat/tests/{name}.rs',
+      'demo_placement':f'{pkg}/tests/{name}.rs',
       'what_it_needs_to_manifest':'see README.md (written by the sub-agent that produced the change)',
       'confirmed_by_me':ran,'demo_failure_excerpt':fail_line,
       'source':'independent sub-agent given only the property text and a scratch worktree' + ('' if R=='1' else f' (round {R}: also told which mechanisms had been tried and asked for changes a random-history tester would be unlikely to reach)'),
